@@ -1281,6 +1281,13 @@ func uintToXSDDoubleStr[T allUInts](v T) (string, error) {
 }
 
 func intFromStr(s string) (*big.Int, error) {
+	// big.Rat also reads fractions ("4/2"), base prefixes ("0x10", "0b11",
+	// "0o17"), hexadecimal floats ("0x1p4") and digit separators ("1_000"):
+	// none of them is a decimal number.
+	if strings.ContainsAny(s, "/_xXbBoOpP") {
+		return nil, fmt.Errorf("can't parse number: %v", s)
+	}
+
 	var r = new(big.Rat)
 	_, ok := r.SetString(s)
 	if !ok {
